@@ -22,7 +22,9 @@ import json
 PROPERTY = "C17"
 RULE = ("stream cases = random selection under the subscription field (depth<=2: leaf/object/list fields, sync and async field "
         "resolvers, interface- and union-typed payloads whose implementations Dog/Cat declare the same fields with different argument "
-        "defaults, nested and in lists, the runtime type changing between events and inside one event) x source events that are FALSY values (None, 0, "", {}, [], False) at every position x the resolver of a selected field "
+        "defaults, nested and in lists, the runtime type changing between events and inside one event) x source object flavour (async iterator, async generator, async ITERABLE with generator __aiter__, async iterable returning a "
+        "separate iterator) x events whose processing raises an UNEXPECTED exception while a sibling field fails later, the consumer "
+        "keeps reading x source events that are FALSY values (None, 0, "", {}, [], False) at every position x the resolver of a selected field "
         "re-registered on the schema (register_resolver(allow_override=True)) between events k and k+1 of the open subscription "
         "(k-th result compared with a fresh execution under the resolvers registered at that moment) x operation VARIABLES (declared defaults not sent, explicit null, enum and input-object variables, variables in "
         "@skip/@include of the event selection and in the subscription field's own argument; k-th result compared with the one-event "
@@ -60,7 +62,7 @@ CONFIRM_SCALE = 20
 CONFIRM_MIN_SECONDS = 90.0
 INFRA_SECONDS = 300.0
 REFUSALS = ["multi-field", "no-sub-resolver", "unknown-field", "query-op", "mutation-op", "blocking-runtime", "threadpool-runtime",
-            "multi-expanded", "zero-fields", "opsel-unknown", "opsel-ambiguous", "vars", "shorthand-op", "named-query-op"]
+            "multi-expanded", "zero-fields", "opsel-unknown", "opsel-ambiguous", "vars", "shorthand-op", "named-query-op", "query-op-missing-var"]
 EXPECTED_EXC = {
     "multi-field": "ExecutionError",
     "no-sub-resolver": "RuntimeError",
@@ -76,6 +78,7 @@ EXPECTED_EXC = {
     "vars": "VariablesCoercionError",
     "shorthand-op": "RuntimeError",           # `{ … }` is a query
     "named-query-op": "RuntimeError",         # a query picked by operation_name next to a subscription
+    "query-op-missing-var": "RuntimeError",   # the operation kind is refused BEFORE its variables are looked at (documented: RuntimeError)
 }
 LEAF = ("a", "ad", "bad", "badd")
 OBJ = ("o", "od")
@@ -286,7 +289,7 @@ def gen_case(rng):
         r = rng.choice(REFUSALS + ["multi-expanded"] * 3)
         sel = gen_sel(rng, 1, counter)
         case = {"kind": "refusal", "refusal": r, "async_sub": rng.random() < 0.5,
-                "source": rng.choice(["iter", "agen"]), "threads": False, "sel": sel,
+                "source": rng.choice(SOURCES), "threads": False, "sel": sel,
                 "events": [gen_event(rng, 0, sel, 0.0)], "delays": [0, 0]}
         case["eager_head"] = rng.random() < 0.5
         if r == "mutation-op":
@@ -301,7 +304,7 @@ def gen_case(rng):
     sel = gen_sel(rng, rng.randint(0, 2), counter)
     perr = rng.choice([0.0, 0.2, 0.5])
     n = rng.choice([0, 1, 2, 2, 3, 3, 4, 5, 6])
-    case = {"kind": "stream", "refusal": None, "async_sub": rng.random() < 0.5, "source": rng.choice(["iter", "agen"]),
+    case = {"kind": "stream", "refusal": None, "async_sub": rng.random() < 0.5, "source": rng.choice(SOURCES),
             "threads": rng.random() < 0.06, "sel": sel, "events": [gen_event(rng, i, sel, perr) for i in range(n)],
             "delays": [rng.choice([0, 0, 1, 3]) for _ in range(n + 1)]}
     if rng.random() < 0.35:
@@ -309,6 +312,20 @@ def gen_case(rng):
     if rng.random() < 0.25:
         case["shared_root"] = rng.choice(["all", "query"])
     case["drive"] = rng.choice(DRIVES)
+    if n >= 2 and rng.random() < 0.08:
+        # event c crashes (unexpected exception in one async leaf) while an async sibling fails some loop turns later
+        c = rng.randint(0, n - 2)
+        counter[0] += 2
+        kx, ky = "k%d" % (counter[0] - 1), "k%d" % counter[0]
+        sel += [{"k": kx, "f": "ad", "sel": []}, {"k": ky, "f": "badd", "sel": []}]
+        for i, e in enumerate(case["events"]):
+            e["fail"] = [p for p in e["fail"] if p != "root"]
+            e["lag"] = {"root/" + kx: rng.choice([30, 60]), "root/" + ky: rng.choice([30, 60])}
+        case["events"][c]["crash"] = ["root/" + kx]
+        case["events"][c]["fail"].append("root/" + ky)
+        case["events"][c]["lag"] = {"root/" + ky: rng.choice([3, 10, 25])}
+        case["drive"] = "anext"
+        return case
     if n and not has_animals(sel) and rng.random() < 0.25:
         for i in range(n):
             if rng.random() < 0.4:
@@ -345,7 +362,7 @@ def render_sel(sel):
 def render_root(case):
     """-> (root selection text, fragment definitions text)"""
     sel = case["sel"]
-    arg = "$v" if case["refusal"] == "vars" else ("$n" if case.get("vars") else "5")
+    arg = "$v" if case["refusal"] in ("vars", "query-op-missing-var") else ("$n" if case.get("vars") else "5")
     half = max(1, len(sel) // 2)
     extra = (" " + VAR_SEL_TEXT) if case.get("vars") else ""
     leaf_text = {
@@ -385,11 +402,11 @@ def documents(case):
     body, frags = render_root(case)
     r = case["refusal"]
     kw = "subscription"
-    if r == "query-op":
+    if r in ("query-op", "query-op-missing-var"):
         kw = "query       "
     elif r == "mutation-op":
         kw = "mutation    "
-    decl = "($v: Int!)" if r == "vars" else ""
+    decl = "($v: Int!)" if r in ("vars", "query-op-missing-var") else ""
     if case.get("vars"):
         decl = "(%s)" % ", ".join("$%s: %s%s" % (name, t, "" if lit is None else " = " + lit) for name, (t, lit, _d, _c) in VARS.items())
     tail = (" " + frags) if frags else ""
@@ -409,7 +426,7 @@ def request_extras(case):
     opname = {"opsel-unknown": "Missing", "named-query-op": "Q"}.get(r)
     if case.get("vars"):
         return opname, copy.deepcopy(case["vars"]["send"])
-    return opname, ({} if r == "vars" else None)
+    return opname, ({} if r in ("vars", "query-op-missing-var") else None)
 
 
 # ---------------------------------------------------------------------------------------------
@@ -471,6 +488,36 @@ def agen_of(src):
     return gen()
 
 
+SOURCES = ("iter", "agen", "aiterable-gen", "aiterable-obj")
+
+
+def make_source_object(kind, src):
+    """what the subscription resolver returns:
+    iter           an async ITERATOR object (class with __aiter__ returning self and __anext__)
+    agen           an async generator object
+    aiterable-gen  an async ITERABLE whose __aiter__ is an async generator method (no __anext__ on the class)
+    aiterable-obj  an async ITERABLE whose __aiter__ returns a separate iterator object"""
+    if kind == "agen":
+        return agen_of(src)
+    if kind == "aiterable-gen":
+        class Feed:
+            async def __aiter__(self):
+                while True:
+                    await src.gate()
+                    if src.i >= len(src.events):
+                        return
+                    e = src.events[src.i]
+                    src.i += 1
+                    yield e
+        return Feed()
+    if kind == "aiterable-obj":
+        class Feed2:
+            def __aiter__(self):
+                return src
+        return Feed2()
+    return src
+
+
 _SCHEMAS = {}
 _SWAP_FN = {}
 
@@ -487,6 +534,8 @@ def schemas(mode):
         ps = "/".join(str(x) for x in info.path)
         if not (isinstance(root, dict) and "id" in root):
             return ps           # a falsy / foreign event used as root value: nothing fails below it
+        if ps in root.get("crash", ()):
+            raise ValueError("crash@%d %s" % (root["id"], ps))      # an UNEXPECTED exception: aborts the processing of this event
         if ps in root["fail"]:
             raise ResolverError("fail@%d %s" % (root["id"], ps))
         return ps
@@ -515,7 +564,11 @@ def schemas(mode):
     def mk(name, is_async):
         if is_async:
             async def r(root, ctx, info, **args):
-                await asyncio.sleep(0)
+                ps = "/".join(str(x) for x in info.path)
+                if is_event(root) and ps in root.get("crash", ()):
+                    return value(root, info, name)          # raises at once
+                for _ in range(root.get("lag", {}).get(ps, 1) if is_event(root) else 1):
+                    await asyncio.sleep(0)                  # controlled lag: this field finishes (or fails) that many loop turns later
                 return value(root, info, name)
         else:
             def r(root, ctx, info, **args):
@@ -646,6 +699,11 @@ class Hang(Exception):
     pass
 
 
+def Raised(cls):
+    """stands for 'the k-th __anext__() raised this exception' in a result list"""
+    return {"raised": cls}
+
+
 class InfraBound(Exception):
     """a bound that exists only so that the check cannot block forever"""
 
@@ -700,7 +758,7 @@ def run_real(case, scale=1):
     ctx.loop = loop
     ctx.async_sub = case["async_sub"]
     src = Source(case["events"], loop)
-    ctx.source = agen_of(src) if case["source"] == "agen" else src
+    ctx.source = make_source_object(case["source"], src)
     ctx.src = src
     ctx.eager_head = bool(case.get("eager_head"))
     pool_rt = None
@@ -752,6 +810,10 @@ def run_real(case, scale=1):
                         res = await it.__anext__()
                     except StopAsyncIteration:
                         break
+                    except ValueError as e:          # the unexpected exception of a crashing event: the consumer keeps reading
+                        if not str(e).startswith("crash@"):
+                            raise
+                        res = Raised(type(e).__name__)
                     results.append(res)
                     n += 1
             out["ended"] = True
@@ -797,7 +859,7 @@ def run_real(case, scale=1):
                     raise InfraBound("%.0f s" % INFRA_SECONDS)
             task.result()
             # responses are rendered AFTER the stream ended: a result sharing state with a later event shows here
-            out["results"] = [x.response() for x in results]
+            out["results"] = [x if isinstance(x, dict) else x.response() for x in results]
         try:
             loop.run_until_complete(main())
         except Hang as e:
@@ -842,7 +904,13 @@ def expected_results(case):
             orig = twin.get_type("Evt").field_map["a"].resolver
             twin.register_resolver("Evt", "a", _SWAP_FN["sync"], allow_override=True)
         try:
-            res = graphql_blocking(twin, qtext, root=copy.deepcopy(ev), variables=request_extras(case)[1])
+            try:
+                res = graphql_blocking(twin, qtext, root=copy.deepcopy(ev), variables=request_extras(case)[1])
+            except ValueError as e:
+                if not str(e).startswith("crash@"):
+                    raise
+                out.append(Raised(type(e).__name__))
+                continue
         finally:
             if after:
                 twin.register_resolver("Evt", "a", orig, allow_override=True)
@@ -900,6 +968,10 @@ def oracle(case, real):
     want = expected_results(case)
     unordered = bool(case["threads"]) or has_async_field(case["sel"])
     for k in range(n):
+        if "raised" in got[k] or "raised" in want[k]:
+            if got[k] != want[k]:
+                bad.append(("kth-raise:differs", "event %d: stream gave %r, fresh execution gives %r" % (k, got[k], want[k])))
+            continue
         g = canon_response(got[k], unordered)
         w = canon_response(want[k], unordered)
         tag = "fail@%d " % (case["events"][k]["id"] if is_event(case["events"][k]) else -1)
@@ -993,13 +1065,13 @@ def model_request(case):
     r = case["refusal"]
     return {
         "op": "subscribe",
-        "operation": {"query-op": "query", "mutation-op": "mutation", "shorthand-op": "query", "named-query-op": "query"}.get(r, "subscription"),
+        "operation": {"query-op": "query", "mutation-op": "mutation", "shorthand-op": "query", "named-query-op": "query", "query-op-missing-var": "query"}.get(r, "subscription"),
         "root": model_root(root_of(case)),
         "fieldDefined": r != "unknown-field",
         "hasSubResolver": r != "no-sub-resolver",
         "streamRuntime": r not in ("blocking-runtime", "threadpool-runtime"),
         "opsel": "error" if r in ("opsel-unknown", "opsel-ambiguous") else "ok",
-        "vars": "error" if r == "vars" else "ok",
+        "vars": "error" if r in ("vars", "query-op-missing-var") else "ok",
         "events": [event_tree(case, ev, k) for k, ev in enumerate(case["events"])],
     }
 
@@ -1015,6 +1087,8 @@ def canon_model_result(resp, sort_errors):
 def compare(case, real, ans):
     if real["err"]:
         return None
+    if any(is_event(e) and e.get("crash") for e in case["events"]):
+        return None         # an event whose processing raises an unexpected exception has no result: outside the model
     if "refused" not in ans:
         return ("corr:model-error", "model returned %r" % (ans,))
     mref = ans["refused"]
@@ -1189,6 +1263,27 @@ def exhaustive_cases():
                 out.append({"kind": "stream", "refusal": None, "async_sub": a, "source": "agen" if a else "iter", "threads": False,
                             "sel": copy.deepcopy(sel), "delays": [0] * (nev + 1), "drive": drive,
                             "events": [{"id": i, "val": i, "fail": ["root/x"] if i == 1 else [], "null": [], "len": {}} for i in range(nev)]})
+    # an UNEXPECTED exception while processing event c (its __anext__ raises), a sibling field of the same event fails LATER; the
+    # consumer keeps reading: the results of the following events must not carry that late error
+    csel = [{"k": "x", "f": "ad", "sel": []}, {"k": "y", "f": "badd", "sel": []}, {"k": "z", "f": "a", "sel": []}]
+    for nev in (2, 3, 4):
+        for c in range(nev - 1):
+            for lag in (5, 25):
+                evs = []
+                for i in range(nev):
+                    e = {"id": i, "val": 10 + i, "fail": [], "null": [], "len": {}, "lag": {"root/x": 60, "root/y": 60}}
+                    if i == c:
+                        e.update({"crash": ["root/x"], "fail": ["root/y"], "lag": {"root/y": lag}})
+                    evs.append(e)
+                out.append({"kind": "stream", "refusal": None, "async_sub": bool(c % 2), "source": SOURCES[(nev + c) % len(SOURCES)],
+                            "threads": False, "sel": copy.deepcopy(csel), "delays": [0] * (nev + 1), "drive": "anext", "events": evs})
+    # every flavour of source object x 0..3 events x drive modes
+    for kind in SOURCES:
+        for nev in range(4):
+            for drive in DRIVES:
+                out.append({"kind": "stream", "refusal": None, "async_sub": bool(nev % 2), "source": kind, "threads": False,
+                            "sel": copy.deepcopy(sel), "delays": [0, 1, 0, 0, 0], "drive": drive,
+                            "events": [{"id": i, "val": i, "fail": ["root/x"] if i == 1 else [], "null": [], "len": {}} for i in range(nev)]})
     # FALSY source events (None, 0, "", {}, [], False) at every position of a 3-event stream, and all-falsy streams
     okev = lambda i: {"id": i, "val": 10 + i, "fail": ["root/x"] if i == 1 else [], "null": [], "len": {}}  # noqa
     n = 0
@@ -1269,7 +1364,7 @@ def run(ctx):
         cases = corpus_cases() + exhaustive_cases()
         ctx.extra["exhaustive_block_cases"] = len(cases)
         check_cases(ctx, cases)
-        n = ctx.n(1000, 8000)
+        n = ctx.n(600, 8000)
         batch = []
         for i in range(n):
             if ctx.time_left() < 15:
